@@ -210,9 +210,10 @@ DEC_CLASSES = [
 NUM_CLASSES = {"scalar": SCALAR_CLASSES, "pref": PREF_CLASSES, "dec": DEC_CLASSES}
 NREF = 12
 # objects WITHOUT a JSON form (harness/impl/c09.py Universe.obj): functions, lambdas, user objects, an Instance ...
-NOBJ = 12
+NOBJ = 15
 OBJ_KIND = {0: "function", 1: "lambda", 2: "user_object", 3: "user_value_object", 4: "user_value_object", 5: "instance",
-            6: "builtin", 7: "partial", 8: "lossy_repr_object", 9: "lossy_repr_object", 10: "bound_method", 11: "class"}
+            6: "builtin", 7: "partial", 8: "lossy_repr_object", 9: "lossy_repr_object", 10: "bound_method", 11: "class",
+            12: "lambda", 13: "closure", 14: "closure"}    # 1 / 12 and 13 / 14: different functions with one qualified name
 OBJ_VARIANTS = {3: 3, 4: 2, 8: 2, 9: 2, 10: 2}     # value types: equal objects built separately
 REF_KIND = {0: "module", 1: "module", 8: "module", 2: "generator", 3: "extmodule", 4: "primcall", 5: "primcall", 9: "primcall",
             6: "extcall", 7: "extcall", 10: "frozenset", 11: "frozenset"}
@@ -318,7 +319,7 @@ def gen_value(r, d, bad=0.0):
     if t == "opt":
         return ["n"] if r.random() < (0.5 if d[1][0] == "obj" else 0.3) else gen_value(r, d[1], 0)
     if t == "obj":
-        i = r.choice([0, 1, 2, 3, 3, 4, 5, 8, 9]) if r.random() < 0.8 else r.randrange(NOBJ)
+        i = r.choice([0, 1, 2, 3, 3, 4, 5, 8, 9, 12, 13, 14]) if r.random() < 0.8 else r.randrange(NOBJ)
         return ["o", i, r.randrange(OBJ_VARIANTS.get(i, 1))]
     if t == "enum":
         return ["e", r.randrange(d[1]), r.choice(["member", "value"])]
@@ -746,7 +747,8 @@ def exhaustive_small(quick):
     gs.append(dict(univ=u, table=[], hists=[calls, list(reversed(calls))], tag="box-dec-pref"))
     # values without a JSON form against None and ints: every pair of parameter sets in one history, every call repeated
     u = [dict(name="G", fields=[dict(name="w", dtype=["int"], default=None), dict(name="o", dtype=["opt", ["obj"]], default=["n"])])]
-    vo = [["n"], O(0), O(1), O(3, 0), O(3, 1), O(4, 0), O(8, 0), O(9, 0), O(5)] + ([] if quick else [O(2), O(6), O(7), O(10, 0), O(10, 1), O(11)])
+    vo = [["n"], O(0), O(1), O(12), O(3, 0), O(3, 1), O(4, 0), O(8, 0), O(9, 0), O(5), O(13), O(14)] + \
+        ([] if quick else [O(2), O(6), O(7), O(10, 0), O(10, 1), O(11)])
     calls = [[0, [I(b), a], "kw"] for a in vo for b in (1, 2)]
     gs.append(dict(univ=u, table=[], hists=[calls + calls, list(reversed(calls)) + calls], tag="box-unnameable"))
     return gs
